@@ -67,9 +67,18 @@ def nodeOf (h : Head) (pure : Bool := true) : Ecal.Parse.Node :=
     else List.replicate b.nch none
   Ecal.Parse.Node.mk b.name none b.binding .none (if b.hasLd then .infix else .none) kids []
 
+/-- the bracket rule EXTRACTED from the Go source, on operator heads of the real table -/
+def genBr (p c : Head) (i : Nat) (pure : Bool) : Bool := needsBrackets (bnOf p) (bnOf c pure) i
+
+/-- the rule the driver's expression-level printer uses: the extracted one when available -/
+def realBr : Head → Head → Nat → Bool → Bool := if shapeOk then genBr else nb realPowers realExc
+
 /-- all heads of the real table -/
 def allHeads : List Head :=
   Head.atom :: ((List.range infixOps.length).map Head.bin ++ (List.range prefixOps.length).map Head.pre)
+
+/-- the head belongs to the real table -/
+def inTable (h : Head) : Bool := allHeads.contains h
 
 /-! ### bridge to the full printer model (used by the driver's cross-check) -/
 
@@ -77,7 +86,10 @@ open Ecal.Parse in
 /-- an AST of the real parser as an operator tree: `none` unless every node is an infix/prefix operator
     of the table (with the table's binding) or a childless atom, without comments or blank lines.
     Atoms are numbered by their position in `atoms`. -/
-partial def toExpr (n : Node) (atoms : Array (List Nat)) : Option (Expr × Array (List Nat)) :=
+def toExprF : Nat → Node → Array (List Nat) → Option (Expr × Array (List Nat))
+  | 0, _, _ => none
+  | fuel+1, n, atoms =>
+  let toExpr := toExprF fuel
   let plain := n.metas.isEmpty && (match n.tok with | some t => t.prefixNl ≤ 1 | none => false)
   if !plain then none
   else match n.children with
@@ -112,26 +124,30 @@ partial def toExpr (n : Node) (atoms : Array (List Nat)) : Option (Expr × Array
     list — i.e. under every operator: `-    suppresses a` -/
 def sinkAttrs : List String := ["kindmatch", "scopematch", "statematch", "priority", "suppresses"]
 
+/-- `toExprF` with a fuel far above the depth of any tree the driver sees -/
+def toExpr (n : Ecal.Parse.Node) (atoms : Array (List Nat)) : Option (Expr × Array (List Nat)) := toExprF 100000 n atoms
+
 /-- text of an operator tree with the parentheses the printer decided, with the operator spellings of the
     full printer's templates; `parent` = name of the enclosing operator (none at the root). A sink attribute
     is indented unless its parent is in ppPostProcessing's no-initial-indent list. -/
+def fill (pieces : Option (List (String ⊕ Nat))) (kids : List (List Nat)) : List Nat :=
+  match pieces with
+  | none => Ecal.Print.s "<?>"
+  | some ps => ps.flatMap fun pc => match pc with
+    | .inl t => Ecal.Print.s t
+    | .inr k => kids.getD (k - 1) (Ecal.Print.s "<?>")
+
 def renderP (atoms : Array (List Nat)) : Option String → PExpr → List Nat
   | _, .atom n => atoms.getD n []
   | parent, .paren x => Ecal.Print.s "(" ++ renderP atoms parent x ++ Ecal.Print.s ")"
   | _, .bin k l r =>
     let name := ((infixOps[k]?).map (·.1)).getD ""
-    let sym := match Ecal.Print.tmpl (name ++ "_2") with
-      | some [.inr 1, .inl sym, .inr 2] => Ecal.Print.s sym
-      | _ => Ecal.Print.s "<?>"
-    renderP atoms (some name) l ++ sym ++ renderP atoms (some name) r
+    fill (Ecal.Print.tmpl (name ++ "_2")) [renderP atoms (some name) l, renderP atoms (some name) r]
   | parent, .pre k x =>
     let name := ((prefixOps[k]?).map (·.1)).getD ""
-    let sym := match Ecal.Print.tmpl (name ++ "_1") with
-      | some [.inl sym, .inr 1] => Ecal.Print.s sym
-      | _ => Ecal.Print.s "<?>"
     let indent := match parent with
       | some p => if sinkAttrs.contains name && !Ecal.Print.noInitialIndentParents.contains p then Ecal.Print.s "    " else []
       | none => []
-    indent ++ sym ++ renderP atoms (some name) x
+    indent ++ fill (Ecal.Print.tmpl (name ++ "_1")) [renderP atoms (some name) x]
 
 end Ecal.C08
